@@ -9,6 +9,8 @@ def check(ctx, replay=None):
     plan = [
         dict(scope="groups" if th else "groups2", mc=["DecisionOK"], mc_maxskips=[255, 2], kw=dict(NSys=3), stride=2 if th else 1, concs=4 if th else 3, expand=0 if th else 3),
         dict(scope="actions", mc=["DecisionOK"], mc_maxskips=[255], kw=dict(NSys=3), stride=1, concs=4, expand=0),
+        # many groups: 1..10 single-name groups with rotating names and actions
+        dict(scope="chain", mc=["DecisionOK"], mc_maxskips=[255, 2], kw=dict(NSys=3), stride=1, concs=4, expand=0),
         # real scale: lists of 1..300 names (sizes around 127/128 and 250..258, whole table), overlapping groups
         dict(scope="long1", mc=["DecisionOK"] if th else None, mc_maxskips=[255], kw=dict(W=8, X32Bit=512, NSys=300), stride=1 if th else 2, concs=4, expand=2),
         dict(scope="long2", mc=["DecisionOK"], mc_maxskips=[255], kw=dict(W=8, X32Bit=512, NSys=300), stride=1 if th else 2, concs=4, expand=2),
